@@ -130,6 +130,7 @@ fn targeted(seed: u64, run: u64) -> Trace {
                 },
             ],
         },
+        plain488: false,
     };
     let mut t = base_trace("C01", seed, run, "targeted", cfg.clone());
     let n_int = (INT_TYPES.len() * BOUND_LITERALS.len()) as u64;
@@ -309,6 +310,7 @@ impl Prop for C01 {
             },
             controllers: 1,
             tree,
+            plain488: false,
         };
         let mut t = base_trace("C01", seed, run, "hostile", cfg.clone());
         let tc = TreeCtx::new(&cfg.tree);
